@@ -210,7 +210,7 @@ def shard(ctx):
                               'pos-punct-char', 'word-keyword',
                               'word-typographic-punct', 'edge-odd',
                               'cat-decorated', 'pos-keyword'],
-                  root_labels=['TOP', 'ROOT', 'S'])
+                  root_labels=['TOP', 'ROOT', 'S', 'EMPTY', ''])
         gen.uproot(rng, spec, p=rng.choice([0.1, 0.25, 0.5]),
                    only_tokens=rng.random() < 0.5)
         run_tree(ctx, spec, rng)
